@@ -47,6 +47,10 @@
 //	EncodePacketNumber(fullPN, length) []byte                         the `length` least significant bytes
 //	DecodePacketNumber(largestPN, truncated, length) uint64           length in bytes; largestPN < 0 = nothing received yet
 //
+// Self-test
+//
+//	SelfTest() error                                                  a handful of RFC 9001 / 9369 / 9000 vectors
+//
 // All functions are pure and safe for concurrent use; Keys values are plain data.
 package ref5
 
